@@ -3,10 +3,10 @@
 p=$1; cid=$2; tier=${3:-quick}
 cd /repo || exit 2
 if [ -n "$(git status --porcelain --untracked-files=no)" ]; then echo "REPO DIRTY"; exit 2; fi
-git apply "$p" 2>/dev/null || git apply -3 "$p" 2>/dev/null || { echo "APPLY-FAILED $p"; git checkout -q -- .; exit 3; }
+git apply "$p" 2>/dev/null || git apply -3 "$p" 2>/dev/null || { echo "APPLY-FAILED $p"; git reset -q --hard HEAD; exit 3; }
 cd /verif
 out=$(./check $cid $tier 2>&1); rc=$?
-git -C /repo checkout -q -- . ; git -C /repo reset -q
+git -C /repo reset -q --hard HEAD
 echo "$out" | grep -E "^(VIOLATION|KNOWN-FINDING|OK|MACHINERY)" | head -5
 echo "  clause: $(echo "$out" | grep -E '^  clause' | head -2 | cut -c1-300)"
 echo "RESULT $(basename $(dirname $p)) check=$cid rc=$rc"
